@@ -24,6 +24,9 @@ package inode
 // Z3 (C12): a file shrinks only to the size for which zeroTail has just cleared
 // the rest of its last kept block; growing is always allowed.
 //@ writeguard inode.Inode.Size by value >= oldvalue || tailzeroedto[this.Inum] == value @C12
+// I6 (C04/C05): a directory's ".." holds a link on its parent; the parent's
+// count is lowered before the directory is unlinked (checked at doDecLink).
+//@ onwrite inode.Inode.Nlink: nldec = ite(value + 1 == oldvalue, store(nldec, this.Inum, true), nldec)
 //@ onwrite inode.Inode.Kind: dirtyinum = ite(changed, store(dirtyinum, this.Inum, true), dirtyinum)
 //@ onwrite inode.Inode.Nlink: dirtyinum = ite(changed, store(dirtyinum, this.Inum, true), dirtyinum)
 //@ onwrite inode.Inode.Gen: dirtyinum = ite(changed, store(dirtyinum, this.Inum, true), dirtyinum)
@@ -54,7 +57,7 @@ package inode
 //@ spec (*Inode).InitInode
 //@   props C08 C10 C14 C11
 //@   requires locked(ip) && ip.Inum == inum
-//@   modifies ip.Inum, ip.Kind, ip.Nlink, ip.Gen, ip.Atime, ip.Mtime, dirtyinum
+//@   modifies ip.Inum, ip.Kind, ip.Nlink, ip.Gen, ip.Atime, ip.Mtime, dirtyinum, nldec
 //@   ensures [H2-genbump] ip.Gen == old(ip.Gen) + 1 @C08
 //@   ensures ip.Kind == kind && ip.Nlink == 1 && ip.Inum == inum
 //@   ensures dirtyinum[inum] && (forall j uint64 :: j != inum ==> dirtyinum[j] == old(dirtyinum)[j])
@@ -75,7 +78,7 @@ package inode
 //@ spec (*Inode).DecLink
 //@   props C05 C04 C14
 //@   requires locked(ip) && inodeInv(ip) && atxnInv(atxn) && lastst == 0
-//@   modifies ip.Nlink, dirtyinum, wroteinum
+//@   modifies ip.Nlink, dirtyinum, wroteinum, nldec
 //@   ensures ip.Nlink == old(ip.Nlink) - 1 && (result <==> ip.Nlink == 0)
 //@   ensures !dirtyinum[ip.Inum] && (forall j uint64 :: j != ip.Inum ==> dirtyinum[j] == old(dirtyinum)[j])
 
